@@ -363,4 +363,32 @@ def check(run, F, tier):
                         r7.ok(key)
                     else:
                         r7.violation(key, "%s expiry on v5.0/%s enters %s" % (k, s, sorted(names)))
+    # ------------------------------------------------------------------ R8: Server Keep Alive is recorded whenever announced
+    r8 = run.rule("C15-R8", "an accepted CONNACK that carries Server Keep Alive records it, whatever else is configured", floor=1)
+    PROP = "mqtt::packet::property::Property"
+    f8 = recvh.get(("v5_0", "connack"))
+    if f8 is None or PROP not in F.adts:
+        r8.violation("anchor", "v5.0 CONNACK receive handler / Property enum not found")
+    else:
+        ska = [v for v in F.adt(PROP)["variants"] if v["name"] == "ServerKeepAlive"]
+        d8 = ska[0].get("discr", ska[0]["idx"]) if ska else None
+        n8 = 0
+        bad8 = None
+        for p in conn.paths(F, f8["path"])["paths"]:
+            if p.kind != "return" or conn.errors(p) or "NotifyPacketReceived" not in (conn.word(p) or []):
+                continue
+            if not any(k[0] == "discr" and k[2] == PROP and c == ("eq", d8) for k, c in p.cons.items()):
+                continue
+            n8 += 1
+            ws = [e for e in p.effects if e[0] == "write" and conn.field_of_write(e) == "pingreq_server_keep_alive_ms"]
+            if not any(w[3][0] == "agg" and w[3][2] == "Some" for w in ws):
+                bad8 = p
+        if n8 == 0:
+            r8.violation("anchor", "no accepted CONNACK path that sees a Server Keep Alive property (anchor lost)")
+        elif bad8 is not None:
+            r8.violation("process_recv_v5_0_connack", "an accepted CONNACK carrying Server Keep Alive does not record it on some path (the priority override > Server Keep Alive > "
+                         "CONNECT keep-alive then falls back to the CONNECT value once the override is removed)", conn.path_summary(bad8),
+                         site="%s:%s" % (f8["file"], f8["line"]))
+        else:
+            r8.ok("process_recv_v5_0_connack", {"paths": n8})
     conn.prune_path_cache(F)
